@@ -7,14 +7,25 @@ CFG = dict(
         "Inst.gen_dim_guard: the cached branch of search_similar/search_in_collection is taken only for queries of the indexed dimension",
         "Inst.gen_keep_spec: SparseVector::try_from_dense keeps exactly the components with val != 0.0",
         "Inst.gen_constants: |v| > 1e-6 and sparse_threshold 0.5 in the representation choice",
+        "Inst.gen_fallback: post-filtered search (search_with_post_filter, search_filtered_in_collection) falls back to the exact filtered search when fewer than k matches survive and the candidate list was cut off",
     ],
     crate="nvh_c06",
     header=H + "From NV.C06 Require Import Types Model Run.\nOpen Scope N_scope.",
-    kinds={"trace": ("trace_case", "check_trace"), "sparse": ("sparse_case", "check_sparse")},
-    known_classes={},
+    kinds={"trace": ("trace_case", "check_trace"), "sparse": ("sparse_case", "check_sparse"), "hnsw": ("hnsw_case", "check_hnsw")},
+    known_classes={0: "reserved-default-name"},
     shard=60,
     rule="seeded store/overwrite/delete/batch/clear/build/search programs over the default and named collections of the real VectorEngine",
-    trusted_base=COMMON_TB + [],
-    assumptions=[],
+    trusted_base=COMMON_TB + [
+        "modelled, not verified: f32 arithmetic (scores are an arbitrary function in the theorems; in the correspondence runs they are the bits returned by the implementation's own metric functions: VectorEngine::compute_similarity, hnsw::simd::dot_product, the euclidean formula of compute_score re-evaluated with the same operations, HNSWDistanceMetric::to_similarity(EmbeddingStorage::distance_dense)); HashMap scan order as a universally quantified permutation; the HNSW index as an arbitrary function returning (node id, score) pairs -- that its node ids are distinct and its scores true is a premise of C06_cached_safe_partial, checked on the real index by the harness; graph construction, level sampling and recall are not modelled; rayon parallel paths (>= 5000 keys / >= 100 batch inputs), search timeouts, max_dimension, persistence (save/load index), entity embeddings, IVF/PQ indexes and pagination are outside the model",
+    ],
+    assumptions=[
+        "no NaN score: vectors and queries are finite (the sort comparator maps incomparable scores to Equal, which is not a total preorder); the theorems carry this as an explicit premise",
+        "collection names other than the reserved \"_default\" (known finding reserved-default-name)",
+        "filters: one metadata field compared for equality, default FilteredSearchConfig values (threshold 0.1, oversample 3), fewer than 100 keys per collection so the selectivity sample is the whole collection",
+        "HNSW search internals are a premise (partial): distinct node ids with true scores",
+    ],
 )
-MANIFEST = dict(text="", note="")
+MANIFEST = dict(
+    text="Exact path: for every score function, query, k, stored set and HashMap scan order the result is the k best same-dimension stored vectors, best first, live and current with true scores (Coq theorem); filtered searches reduce to it over the matching vectors. Cached index: safety facts (<= k, ordered, no duplicate key, indexed keys with true scores) for every index answer with distinct nodes and true scores (partial: HNSW internals are a premise), and the cache invariant 'a cached index stands for the collection's current vectors' for all programs, proved from the per-run regenerated table 'every mutator invalidates' (also shown necessary, mutator by mutator). Sparse representation round trip = zero-normalisation, for all vectors. The model is compared with the real VectorEngine on seeded programs over default and named collections with scores taken from the implementation's own metric functions as bits.",
+    note="Trusted: Coq kernel, rs2v.py/gen_C06.py for the invalidation table, guards and constants, harness + driver. Partial: HNSW search internals (premise), recall not claimed. Known finding: a named collection called \"_default\" shares the default collection's cache slot.",
+)
